@@ -224,6 +224,28 @@ def build():
                raises=[("Exception", "*")], exc_ensures=["NODE_REGISTRY == old(NODE_REGISTRY)"],
                ensures=["reg_get(old(NODE_REGISTRY), NEW_ID) is None", "NODE_REGISTRY == reg_set(old(NODE_REGISTRY), NEW_ID, result)",
                         "registered_nowhere(old(NODE_REGISTRY), result)"]))
+    sf["registered_as"] = lambda r, k, n: VBool(z3.Select(r.term, STR.coerce(k).term) == nv.REG.opt.some(REF.coerce(n)).term)
+    A(Contract(f"{M}:_unregister", variant_of="fresh-node", params={"node": "Ref"}, returns="bool", globals=GD, modifies=["NODE_REGISTRY"], props=["C03", "C04"], trusted=True,
+               trusted_reason="proved under C03 (contracts.node_registry); restated for the node under deserialization, whose id is the ghost slot NEW_ID at the time of the call",
+               ensures=["result == registered_as(old(NODE_REGISTRY), NEW_ID, node)",
+                        "implies(result, NODE_REGISTRY == reg_remove(old(NODE_REGISTRY), NEW_ID))", "implies(not result, NODE_REGISTRY == old(NODE_REGISTRY))"]))
+    reg.contracts[f"{M}:_unregister#fresh-node"].fn = f"{M}:_unregister"
+
+    def unreg_name(m, n):
+        if n == "_unregister" and m.contract.qualname.endswith("_deserialize"):
+            return VPy(("unregister_fresh",))
+        return None
+
+    def unreg_call(m, func, args, kwargs, node):
+        if isinstance(func, VPy) and func.obj == ("unregister_fresh",):
+            fresh = m.ghost_env.get("_fresh_node")
+            if fresh is None or not isinstance(args[0], VU) or args[0].term.get_id() != fresh.term.get_id():
+                raise EngineError("_unregister of a node other than the freshly deserialized one")
+            return m.call_contract(f"{M}:_unregister#fresh-node", args, kwargs)
+        return NotImplemented
+
+    world.name_hooks.append(unreg_name)
+    world.call_hooks.insert(0, unreg_call)
     nowhere = z3.Function("registered_nowhere", nv.REG.z3(), REF.z3(), z3.BoolSort())
     sf["registered_nowhere"] = lambda r, n: VBool(nowhere(r.term, nv.ref(n)))
     A(Contract(f"{M}:ASTNode._deserialize", params={"cls": "py:cls", "value": "Payload"}, returns="Ref", globals=GD, modifies=["NODE_REGISTRY", "NEW_ID"], props=["C03", "C04"],
